@@ -204,10 +204,15 @@ int64_t cmb_resource_acquire(struct cmb_resource *rp)
         return CMB_PROCESS_SUCCESS;
     }
 
-    /* Wait at the front door until resource becomes available */
-     const int64_t ret = cmb_resourceguard_wait(&(rp->guard),
-                                                is_available,
-                                                NULL);
+    /*
+     * Wait at the front door until resource becomes available. Being woken only
+     * means it was free when the guard looked; someone else (e.g. the releasing
+     * process itself) may have grabbed it before we got to run. If so, wait again.
+     */
+    int64_t ret;
+    do {
+        ret = cmb_resourceguard_wait(&(rp->guard), is_available, NULL);
+    } while ((ret == CMB_PROCESS_SUCCESS) && (rp->holder != NULL));
 
     /* Now we got past the front door, or perhaps thrown out by the guard */
     if (ret == CMB_PROCESS_SUCCESS) {
